@@ -6,6 +6,7 @@ import (
 	"io"
 	"net/http"
 	"net/http/httptest"
+	"os"
 	"reflect"
 	"strconv"
 	"strings"
@@ -104,6 +105,10 @@ func addSubscriptions(cfg *apifu.Config, s *graphql.Schema) {
 		}
 		cfg.AddSubscription(name, &d)
 	}
+	// used by the dispatch probe: has the connection's context been cancelled (= did the server begin closing)?
+	cfg.AddQueryField("ctxDone", &graphql.FieldDefinition{Type: graphql.BooleanType, Resolve: func(ctx graphql.FieldContext) (interface{}, error) {
+		return ctx.Context.Err() != nil, nil
+	}})
 }
 
 var wsJunkFrames = []string{
@@ -297,24 +302,31 @@ func runWSDispatch(c Case) string {
 	if !didInit {
 		send(`{"type":"connection_init"}`)
 	}
-	send(`{"id":"probe","type":"` + startType + `","payload":{"query":"{__typename}"}}`)
-	conn.SetReadDeadline(time.Now().Add(8 * time.Second))
+	// A probe operation follows. Frames are handled one after the other on the read loop, and beginClosing
+	// cancels the connection's context before handleMessage returns, so the probe's resolver sees a cancelled
+	// context exactly if the frame made the server begin closing. If so, the close frame is certain to come (the
+	// write loop sends it once the queue is drained) and is waited for; if not, nothing more will come. Should the
+	// probe's answer be lost behind the close, the close frame itself is the observation. No timing is involved.
+	send(`{"id":"probe","type":"` + startType + `","payload":{"query":"{ctxDone}"}}`)
+	conn.SetReadDeadline(time.Now().Add(20 * time.Second))
 	closeCode, acks, pongs, started := "-", 0, 0, false
-	probeDone := false
+	closing := false
 	for {
 		_, msg, err := conn.ReadMessage()
 		if err != nil {
 			if ce, ok := err.(*websocket.CloseError); ok {
-				// the answer to our own close request (either of the two the server may give) is not a close
-				// the server began by itself
-				if !(probeDone && (ce.Text == "close requested by client" || ce.Text == "read error")) {
-					closeCode = fmt.Sprint(ce.Code)
-				}
-				break
+				closeCode = fmt.Sprint(ce.Code)
+			} else if ne, ok := err.(interface{ Timeout() bool }); ok && ne.Timeout() {
+				return "frame dispatch: neither the probe operation was answered nor the connection closed: " + err.Error()
+			} else {
+				closeCode = "abrupt" // closed by the server without the close frame reaching us (reset)
 			}
-			return "frame dispatch: neither the probe operation was answered nor the connection closed: " + err.Error()
+			break
 		}
 		var f wsFrame
+		if os.Getenv("C03_WSDEBUG") != "" {
+			fmt.Fprintln(os.Stderr, "frame:", string(msg))
+		}
 		if json.Unmarshal(msg, &f) != nil {
 			return "server frame is not JSON: " + clip(string(msg))
 		}
@@ -325,13 +337,12 @@ func runWSDispatch(c Case) string {
 			pongs++
 		case f.Type == dataType && f.ID == "p":
 			started = true
+		case f.Type == dataType && f.ID == "probe":
+			// (the executor itself may notice the cancelled context first and answer "context canceled")
+			closing = strings.Contains(string(f.Payload), `"ctxDone":true`) || strings.Contains(string(f.Payload), "context canceled")
 		}
-		if f.Type == "complete" && f.ID == "probe" && !probeDone {
-			// everything the frame caused has been seen, unless the server began closing: frames queued while it
-			// closes may or may not go out, but its close message always does — ask for the close handshake and
-			// see whose close arrives
-			probeDone = true
-			conn.WriteControl(websocket.CloseMessage, websocket.FormatCloseMessage(websocket.CloseNormalClosure, ""), time.Now().Add(2*time.Second))
+		if f.Type == "complete" && f.ID == "probe" && !closing {
+			break
 		}
 	}
 	lastAdm = fmt.Sprintf("(wsdispatch %s %v %s %s %d %d %v)", map[bool]string{true: "new", false: "old"}[c.Entry == "ws-new"], didInit, kind, closeCode, acks, pongs, started)
